@@ -176,3 +176,26 @@ PROPS = {
         "assumptions": [],
     },
 }
+
+
+# session 3: additions to the generation rules (appended to the rule texts)
+RULE_ADD = {
+    "C01": "; decrt: decode_ranges (both flavours, 5 sink kinds) with ONE failing read call k (first items or anywhere) of kind Other / Interrupted / UnexpectedEof / ConnectionReset on honest, tampered and truncated streams",
+    "C03": "; 26 entry points incl. the default create methods; sync entry points also with readers returning at most m in {1,7,63,64,1000,1023,1024,1025,4097} bytes per call; create on a reader positioned at byte k; Default outboards (misc defaults)",
+    "C04": "; the sync encoders also into sinks accepting at most 7 / 63 / 1000 / 1025 bytes per write call (syncw)",
+    "C05": "; io::Error::from(EncodeError) kinds and texts (misc encerr)",
+    "C07": "; fsm histories ask the async validator; store: load / save / load / sync through references on every outboard kind x flavour x every node id of size classes up to 6/12 groups x bs 0..3/4 (ids past the tree too), seeded random backings, 1 in 6 with a backing that ends early",
+    "C09": "; decr: both decode_ranges drivers x 5 sink kinds on truncations / single byte alterations of the honest stream; misc decerr: conversions and texts for node / chunk numbers up to 2^63",
+    "C10": "; fault kinds: the 4 error kinds + Eof (the k-th read returns no bytes, so do all later ones) on every reader (objects data and r) + Interrupted on the async operations and the item stream; misc encerr",
+    "C11": "; fragdecr: decode_ranges on a borrowed fragmented reader, response followed by 1..9000 more bytes (also unfragmented), leftover compared",
+    "C12": "; store cases as in C07",
+    "C13": "; modes growsync / growfsm: the prefix's outboard extended in place through OutboardMut",
+    "C14": "; enc2: all four byte encoders on both queries (eight encodings)",
+    "C15": "; misc bchunk",
+    "C16": "; decr ... c<size>: both decode_ranges drivers with a receiver whose outboard claims another size (claimed sizes up to 200 000)",
+    "C17": "; misc cnum / bsbytes: chunk_group_start / _end, from_bytes, ChunkNum arithmetic on 0..39, powers of two +-1, random values, u64::MAX",
+    "C18": "; misc fmt / cnum: Display / Debug / alternate Debug of TreeNode, ChunkNum, BlockSize",
+    "C19": "; io errors without payload: 19 bare kinds (io::Error::from(kind)) and 18 OS errnos (from_raw_os_error); Parent from JSON arrays of 0..4 elements; misc dbg",
+}
+for _k, _v in RULE_ADD.items():
+    PROPS[_k]["rule"] = PROPS[_k].get("rule", "") + _v
